@@ -21,7 +21,7 @@ StateOf(g) ==
             totLocked |-> 0, totLockedDen |-> g.ent.denom, totSpent |-> 0],
    wrk |-> RegInit(g.wrk), bcn |-> RegInit(g.bcn),
    str |-> [p |-> [feeNum |-> g.str.feeNum, feeDen |-> g.str.feeDen], s |-> <<>>],
-   aux |-> [props |-> <<>>, nextProp |-> 1, ever |-> [wrk |-> <<>>, bcn |-> <<>>], sh |-> <<>>]]
+   aux |-> [props |-> <<>>, nextProp |-> 1, ever |-> [wrk |-> <<>>, bcn |-> <<>>], sh |-> <<>>, ghost |-> {}]]
 
 
 EndEv == [a |-> "EndBlock"]
